@@ -212,7 +212,7 @@ def suite_strings(ctx, values, dialects, label, full_spellings, stats):
     ml = dict(zip(uvals, drv_batch([f"sql_lex\tstd\t{(mq[v] + ' ' + enc(rest)).strip()}" for v in uvals])))
     nbad_sql, ran = 0, {}
     for (v, style, src, cls), a in zip(good, comp):
-        ctx.case(("sql", src))
+        ctx.case(("sql", src), nontrivial="sql" in a)
         if "sql" not in a:
             ctx.oracle_failure("string-literal-rejected", f"a documented string spelling does not compile: {src!r}", {"prql": f"from t | select {{v = {src}}}", "answer": a})
             continue
@@ -235,8 +235,32 @@ def suite_strings(ctx, values, dialects, label, full_spellings, stats):
             stats["fail"][("sqlite", fid)] += 1
             ctx.oracle_failure(fid, f"value {v!r} does not reach SQLite unchanged: {str(res)[:200]}",
                                {"prql": f"from t | select {{v = {src}}}", "dialect": "sqlite", "value": v, "sql": a["sql"], "observed": res})
-    ctx.obligation(f"correspondence[{label}]: emitted string literal text = Model.Lit.sqlQuote (mirror of sqlparser's printer)", nbad_sql == 0,
-                   f"{len(good)} programs, {nbad_sql} disagreements")
+    # the same spellings inside a relation literal: from [{v = <literal>}]
+    rgood = [c for c in good if c[3] != "F"]
+    rcomp = vh_batch([compile_req(f"from [{{v = {src}}}]") for (_, _, src, _) in rgood])
+    for (v, style, src, cls), a in zip(rgood, rcomp):
+        ctx.case(("rel-sql", src), nontrivial="sql" in a)
+        if "sql" not in a:
+            ctx.oracle_failure("string-literal-rejected", f"a documented string spelling does not compile inside a relation literal: {src!r}",
+                               {"prql": f"from [{{v = {src}}}]", "answer": a})
+            continue
+        expect = "WITH table_0 AS (SELECT " + dec(mq[v]) + " AS v) SELECT v FROM table_0"
+        if a["sql"] != expect:
+            nbad_sql += 1
+            ctx.disagreement("sql text (relation literal)", f"emitted SQL differs from the model for value {v!r}", {"src": src, "sql": a["sql"], "model": expect})
+        if a["sql"] in ran:
+            continue
+        res = sqlite_one(a["sql"])
+        ok = res[0] != "error" and res[0] == ["v"] and res[1] == [[v]]
+        ran[a["sql"]] = ok
+        stats["sqlite_exec"] += 1
+        if not ok:
+            fid = classify_string("sqlite", v)
+            stats["fail"][("sqlite-rel", fid)] += 1
+            ctx.oracle_failure(fid, f"value {v!r} in a relation literal does not reach SQLite unchanged: {str(res)[:200]}",
+                               {"prql": f"from [{{v = {src}}}]", "dialect": "sqlite", "value": v, "sql": a["sql"], "observed": res})
+    ctx.obligation(f"correspondence[{label}]: emitted string literal text = Model.Lit.sqlQuote (mirror of sqlparser's printer), in select and in relation literals",
+                   nbad_sql == 0, f"{len(good)} + {len(rgood)} programs, {nbad_sql} disagreements")
 
     # every dialect: one canonical spelling per value; tokenised by the dialect's own tokenizer
     reqs, meta = [], []
@@ -250,7 +274,7 @@ def suite_strings(ctx, values, dialects, label, full_spellings, stats):
     bs_lines, bs_meta = [], []
     nbad_tok = 0
     for (v, d, src), a, t in zip(meta, comp, toks):
-        ctx.case(("dialect", d, v))
+        ctx.case(("dialect", d, v), nontrivial="sql" in a and v != "")
         if "sql" not in a:
             ctx.oracle_failure("string-literal-rejected", f"{src!r} does not compile for sql.{d}", {"prql": src, "dialect": d, "answer": a})
             continue
@@ -348,7 +372,7 @@ def suite_numbers(ctx, spell, stats):
     comp = vh_batch([compile_req(f"from t | select {{v = {s}}}") for s in spell])
     nbad = nbad_sql = 0
     for s, i, m, e, a in zip(spell, impl, model, emit, comp):
-        ctx.case(("num", s))
+        ctx.case(("num", s), nontrivial="sql" in a)
         if not lex_same(i, m):
             nbad += 1
             ctx.disagreement("number value", f"lex_source and Model.Lex.lex differ on {s!r}", {"src": s, "impl": i, "model": m})
